@@ -7,6 +7,7 @@ package world
 
 import (
 	"context"
+	"encoding/json"
 	"errors"
 	"fmt"
 	"net/url"
@@ -69,6 +70,10 @@ type Mode struct {
 	// GetDeviceCodeSession answers (request, ErrInvalidatedDeviceCode) as
 	// handler/rfc8628/storage.go documents.
 	ContractDevice bool
+	// Hydrate (with DB): like a SQL store, a lookup unmarshals the stored session (a JSON document) INTO the session prototype
+	// the caller passed and returns a request whose session is that very object (the documented meaning of the session argument of
+	// Get*Session). The reference store ignores the argument.
+	Hydrate bool
 }
 
 // IStore wraps the reference MemoryStore.
@@ -326,6 +331,35 @@ func (s *IStore) out(r fosite.Requester) fosite.Requester {
 	return CloneRequester(r)
 }
 
+// hydrate implements Mode.Hydrate for a request leaving the store.
+func (s *IStore) hydrate(r fosite.Requester, proto fosite.Session) fosite.Requester {
+	if !s.Mode.DB || !s.Mode.Hydrate || proto == nil || r == nil {
+		return r
+	}
+	if v := reflect.ValueOf(r); v.Kind() == reflect.Ptr && v.IsNil() {
+		return r
+	}
+	src := r.GetSession()
+	if src == nil {
+		return r
+	}
+	dv, sv := reflect.ValueOf(proto), reflect.ValueOf(src)
+	if dv.Kind() != reflect.Ptr || sv.Kind() != reflect.Ptr || dv.IsNil() || sv.IsNil() || dv.Type() != sv.Type() {
+		return r // a prototype of another type cannot receive this record
+	}
+	// exactly what a SQL store does: the stored session is a JSON document that is unmarshalled into the prototype
+	// (fields present in the document overwrite, map entries are merged, everything else in the prototype stays)
+	b, err := json.Marshal(src)
+	if err != nil {
+		return r
+	}
+	if err := json.Unmarshal(b, proto); err != nil {
+		return r
+	}
+	r.SetSession(proto)
+	return r
+}
+
 // ---- fosite.ClientManager ---------------------------------------------------
 
 func (s *IStore) GetClient(ctx context.Context, id string) (fosite.Client, error) {
@@ -382,7 +416,7 @@ func (s *IStore) GetAuthorizeCodeSession(ctx context.Context, code string, sess 
 	}
 	r, err := s.Mem.GetAuthorizeCodeSession(ctx, code, sess)
 	s.leave(c, err)
-	return s.out(r), err
+	return s.hydrate(s.out(r), sess), err
 }
 
 func (s *IStore) InvalidateAuthorizeCodeSession(ctx context.Context, code string) error {
@@ -417,7 +451,7 @@ func (s *IStore) GetPKCERequestSession(ctx context.Context, sig string, sess fos
 	}
 	r, err := s.Mem.GetPKCERequestSession(ctx, sig, sess)
 	s.leave(c, err)
-	return s.out(r), err
+	return s.hydrate(s.out(r), sess), err
 }
 
 func (s *IStore) DeletePKCERequestSession(ctx context.Context, sig string) error {
@@ -452,7 +486,7 @@ func (s *IStore) GetAccessTokenSession(ctx context.Context, sig string, sess fos
 	}
 	r, err := s.Mem.GetAccessTokenSession(ctx, sig, sess)
 	s.leave(c, err)
-	return s.out(r), err
+	return s.hydrate(s.out(r), sess), err
 }
 
 func (s *IStore) DeleteAccessTokenSession(ctx context.Context, sig string) error {
@@ -486,7 +520,7 @@ func (s *IStore) GetRefreshTokenSession(ctx context.Context, sig string, sess fo
 		if errors.Is(e, fosite.ErrInactiveToken) {
 			// the storage contract: ErrInactiveToken comes together with the stored request
 			if r, _ := s.Mem.GetRefreshTokenSession(ctx, sig, sess); r != nil {
-				return s.out(r), e
+				return s.hydrate(s.out(r), sess), e
 			}
 		}
 		return nil, e
@@ -496,7 +530,7 @@ func (s *IStore) GetRefreshTokenSession(ctx context.Context, sig string, sess fo
 	if r == nil {
 		return nil, err
 	}
-	return s.out(r), err
+	return s.hydrate(s.out(r), sess), err
 }
 
 func (s *IStore) DeleteRefreshTokenSession(ctx context.Context, sig string) error {
@@ -577,6 +611,9 @@ func (s *IStore) GetOpenIDConnectSession(ctx context.Context, code string, req f
 	}
 	r, err := s.Mem.GetOpenIDConnectSession(ctx, code, req)
 	s.leave(c, err)
+	if req != nil {
+		return s.hydrate(s.out(r), req.GetSession()), err
+	}
 	return s.out(r), err
 }
 
@@ -727,6 +764,7 @@ func (s *IStore) GetDeviceCodeSession(ctx context.Context, sig string, sess fosi
 	s.leave(c, err)
 	if err == nil && s.Mode.DB {
 		r = CloneRequester(r).(fosite.DeviceRequester)
+		r = s.hydrate(r, sess).(fosite.DeviceRequester)
 	}
 	return r, err
 }
